@@ -20,11 +20,16 @@ def run_one(m, repo='/repo'):
         for rel in ('versionconfig.h', 'api/libcellml/exportdefinitions.h'):
             if os.path.exists(os.path.join(b, rel)):
                 shutil.copyfile(os.path.join(b, rel), os.path.join(tmp, '_build', 'src', rel))
-        p = os.path.join(tmp, 'src', m['file'])
-        s = open(p).read()
-        if s.count(m['old']) != 1:
-            return {'id': m['id'], 'status': 'skipped', 'why': 'pattern occurs %d times' % s.count(m['old'])}
-        open(p, 'w').write(s.replace(m['old'], m['new']))
+        if m.get('patch'):
+            r0 = subprocess.run(['patch', '-p1', '-s', '-d', tmp, '-i', m['patch']], stdout=subprocess.PIPE, stderr=subprocess.STDOUT, text=True)
+            if r0.returncode != 0:
+                return {'id': m['id'], 'status': 'skipped', 'why': 'patch does not apply: ' + r0.stdout.strip()[-120:]}
+        else:
+            p = os.path.join(tmp, 'src', m['file'])
+            s = open(p).read()
+            if s.count(m['old']) != 1:
+                return {'id': m['id'], 'status': 'skipped', 'why': 'pattern occurs %d times' % s.count(m['old'])}
+            open(p, 'w').write(s.replace(m['old'], m['new']))
         env = dict(os.environ, VERIF_REPO=tmp, VERIF_EVIDENCE_DIR=os.path.join(tmp, 'evidence'))
         man = json.load(open(os.path.join(VERIF, 'MANIFEST.json')))
         res = {}
@@ -39,9 +44,18 @@ def run_one(m, repo='/repo'):
 
 if __name__ == '__main__':
     ms = json.load(open(os.path.join(VERIF, 'mutants', 'neutral.json')))
+    # behaviour-preserving refactorings written by independent agents (seeded_neutral/<id>/patch.diff)
+    nd = os.path.join(VERIF, 'seeded_neutral')
+    if os.path.isdir(nd):
+        for d in sorted(os.listdir(nd)):
+            pp = os.path.join(nd, d, 'patch.diff')
+            if os.path.exists(pp):
+                ms.append({'id': 'agent:' + d, 'patch': pp})
+    if len(sys.argv) > 1:
+        ms = [m for m in ms if any(a in m['id'] for a in sys.argv[1:])]
     from concurrent.futures import ThreadPoolExecutor
     with ThreadPoolExecutor(max_workers=4) as ex:
         out = list(ex.map(run_one, ms))
     for r in out:
         print(json.dumps(r))
-    print('%d neutral edits: %d quiet, %d anchor-lost, %d false alarms' % (len(out), sum(r['status'] == 'quiet' for r in out), sum(r['status'] == 'anchor-lost' for r in out), sum(r['status'] == 'false-alarm' for r in out)))
+    print('%d neutral edits: %d quiet, %d anchor-lost, %d false alarms, %d skipped' % (len(out), sum(r['status'] == 'quiet' for r in out), sum(r['status'] == 'anchor-lost' for r in out), sum(r['status'] == 'false-alarm' for r in out), sum(r['status'] == 'skipped' for r in out)))
